@@ -154,42 +154,46 @@ func judge(c *GramCase) bool {
 
 func enumerate(t *testing.T, alpha string, maxLen int, suffix string) {
 	shard, shards := stats.EnvInt("VERIF_SHARD", 0), stats.EnvInt("VERIF_SHARDS", 1)
-	n, cnt := 0, 0
+	cnt := 0
 	buf := make([]byte, 0, maxLen+1)
-	var rec func(depth int)
-	rec = func(depth int) {
-		if stats.Failed() {
-			return
-		}
-		if depth == 2 {
-			n++
-			if n%shards != shard {
+	// shortest strings first, so that the first failure is a minimal one
+	for want := 0; want <= maxLen && !stats.Failed(); want++ {
+		n := 0
+		var rec func(depth int)
+		rec = func(depth int) {
+			if stats.Failed() {
 				return
 			}
-		}
-		if depth >= 2 || shard == 0 {
-			c := &GramCase{Pattern: stats.B(string(buf) + suffix), MaxParams: -1, MaxKey: -1}
-			if cnt++; cnt%60000 == 11 {
-				stats.Sample(c)
+			if depth == 2 {
+				n++
+				if n%shards != shard {
+					return
+				}
 			}
-			if !judge(c) {
-				t.Errorf("violation on %q", c.Pattern)
+			if depth == want {
+				if depth >= 2 || shard == 0 {
+					c := &GramCase{Pattern: stats.B(string(buf) + suffix), MaxParams: -1, MaxKey: -1}
+					if cnt++; cnt%60000 == 11 {
+						stats.Sample(c)
+					}
+					if !judge(c) {
+						t.Errorf("violation on %q", c.Pattern)
+						return
+					}
+					if ref.ValidPattern(string(c.Pattern), 65535, 65535) {
+						stats.Class("enumerated:valid")
+					}
+				}
 				return
 			}
-			if ref.ValidPattern(string(c.Pattern), 65535, 65535) {
-				stats.Class("enumerated:valid")
+			for i := 0; i < len(alpha); i++ {
+				buf = append(buf, alpha[i])
+				rec(depth + 1)
+				buf = buf[:len(buf)-1]
 			}
 		}
-		if depth == maxLen {
-			return
-		}
-		for i := 0; i < len(alpha); i++ {
-			buf = append(buf, alpha[i])
-			rec(depth + 1)
-			buf = buf[:len(buf)-1]
-		}
+		rec(0)
 	}
-	rec(0)
 }
 
 func TestGrammarExhaustive(t *testing.T) {
